@@ -606,7 +606,11 @@ def main(tier, seed):
             if n_minimised < 4:
                 n_minimised += 1
                 l, f = minimise_graph(l, f, root)
-                f["what"] = "; ".join(x["what"] for x in f["min"].get("fails", [])[:2]) or f["what"]
+                ws = []
+                for x in f["min"].get("fails", []):
+                    if x["what"] not in ws:
+                        ws.append(x["what"])
+                f["what"] = "; ".join(ws[:2]) or f["what"]
             files = {"schema.exp": open(l["exp"]).read(), "schema.json": json.dumps(l["schema"])}
             files.update(replay_files(f))
             d = common.save_replay(PROP, files, {"property": PROP, "what": f.get("what"), "sig": f.get("sig"), "seed": seed,
